@@ -1051,4 +1051,63 @@ SEEDS = [
          old="""    fn get_value(&self, key: K) -> Option<&V> {""",
          new="""    fn get_value(&self, key: K) -> Option<&V> {
         let key = if self.root != EMPTY_REF { self.node(self.root).entity.key.max(key) } else { key };""", note='the wrapper looks up another key than it was asked for'),
+
+    # ---- HEAPMASK (C15): the two mask walks over the implicit bucket heap ----
+    dict(id='HM1-visit-and-instead-of-or', props=['C15'], file='src/seg/heap.rs', old="""                let pt_bit = lt_bit | rt_bit;""", new="""                let pt_bit = lt_bit & rt_bit;""", note='a node is visited only when both children are'),
+    dict(id='HM2-place-or-instead-of-and', props=['C15'], file='src/seg/heap.rs', old="""                let pt_bit = lt_bit & rt_bit;""", new="""                let pt_bit = lt_bit | rt_bit;""", note='a parent absorbs a single selected child: the value is stored above its range'),
+    dict(id='HM3-place-right-emitted-at-left', props=['C15'], file='src/seg/heap.rs', old="""                m |= (rt_bit ^ pt_bit) << rt;""", new="""                m |= (rt_bit ^ pt_bit) << lt;""", note='an unabsorbed right child is emitted at its left sibling'),
+    dict(id='HM4-visit-stops-two-levels-early', props=['C15'], file='src/seg/heap.rs', old="""        let mut shift = 32;
+        for _ in 0..6 {
+            let mut lt = shift - 1;
+            shift >>= 1; // 16
+            for _ in 0..shift {
+                let rt = lt + 1;
+                let pt = lt >> 1;
+
+                let lt_bit = (w >> lt) & 1;
+                let rt_bit = (w >> rt) & 1;
+                let pt_bit = lt_bit | rt_bit;""", new="""        let mut shift = 32;
+        for _ in 0..3 {
+            let mut lt = shift - 1;
+            shift >>= 1; // 16
+            for _ in 0..shift {
+                let rt = lt + 1;
+                let pt = lt >> 1;
+
+                let lt_bit = (w >> lt) & 1;
+                let rt_bit = (w >> rt) & 1;
+                let pt_bit = lt_bit | rt_bit;""", note='the closure never reaches the upper nodes: values stored there are not visited'),
+    dict(id='HM5-place-parent-index', props=['C15'], file='src/seg/heap.rs', old="""                let pt = lt >> 1;
+
+                let lt_bit = (w >> lt) & 1;
+                let rt_bit = (w >> rt) & 1;
+                let pt_bit = lt_bit & rt_bit;""", new="""                let pt = (lt + 1) >> 1;
+
+                let lt_bit = (w >> lt) & 1;
+                let rt_bit = (w >> rt) & 1;
+                let pt_bit = lt_bit & rt_bit;""", note='the place walk climbs to the wrong parent'),
+    dict(id='HM6-shortcut-too-wide', props=['C15'], file='src/seg/heap.rs', old="""        if end - start == 31 {""", new="""        if end - start >= 30 {""", note='ranges of 31 buckets are stored at the root: found by queries outside them'),
+    dict(id='HM7-shortcut-answer', props=['C15'], file='src/seg/heap.rs', old="""            return 1
+        }""", new="""            return 2
+        }""", note='the whole domain is stored at the left half'),
+    dict(id='HM8-leaf-offset', props=['C15'], file='src/seg/heap.rs', old="""        order + Self::SUB_CAPACITY""", new="""        order + Self::POWER * 6""", note='the leaves start one position early'),
+    dict(id='HM9-fill-one-short', props=['C15'], file='src/seg/bit.rs', old="""        ((1u64 << (end - start + 1)) - 1) << start""", new="""        ((1u64 << (end - start)) - 1) << start""", note='the last bucket of the range is not filled'),
+    dict(id='HM10-fill-args-swapped', props=['C15'], file='src/seg/heap.rs', old="""        let i0 = Self::order_to_heap_index(start);
+        let i1 = Self::order_to_heap_index(end);""", new="""        let i0 = Self::order_to_heap_index(end);
+        let i1 = Self::order_to_heap_index(start);""", note='the leaf word is built from (end, start)'),
+    dict(id='HM11-place-step', props=['C15'], file='src/seg/heap.rs', old="""                m |= (rt_bit ^ pt_bit) << rt;
+
+                lt += 2;""", new="""                m |= (rt_bit ^ pt_bit) << rt;
+
+                lt += 4;""", note='every other pair of a level is skipped'),
+    dict(id='HM12-place-emits-absorbed', props=['C15'], file='src/seg/heap.rs', old="""                m |= (lt_bit ^ pt_bit) << lt;""", new="""                m |= lt_bit << lt;""", note='an absorbed left child is emitted too: the value is stored twice over the same buckets'),
+    dict(id='HM13-visit-level-start', props=['C15'], file='src/seg/heap.rs', old="""        let mut w = Self::range_to_fill_mask(start, end);
+
+        let mut shift = 32;
+        for _ in 0..6 {
+            let mut lt = shift - 1;""", new="""        let mut w = Self::range_to_fill_mask(start, end);
+
+        let mut shift = 32;
+        for _ in 0..6 {
+            let mut lt = shift + 1;""", note='the first pair of every level is left out of the closure'),
 ]
